@@ -92,7 +92,9 @@ static void ka_fresh(void) {
   int i;
   memset(&G, 0, sizeof G);
   myth_tls_key_allocator_init(&G.ka);
-  for (i = 0; i < NGUARD; i++) { G.post[i].next = 0; G.post[i].destructor = dtor_oob; }
+  /* what lies behind the table is unspecified; the guard cells hold the worst case: they look like
+     live keys with a destructor, so that any access past the table becomes visible */
+  for (i = 0; i < NGUARD; i++) { G.post[i].next = (myth_tls_key_entry_t *)-1; G.post[i].destructor = dtor_oob; }
 }
 
 /* ---------------- dumps ---------------- */
